@@ -1,6 +1,5 @@
-/- line-protocol driver for C03: `drv_c03 <sub-command>` reads operations on stdin, prints one canonical line per operation.
-   Core Lean only (nothing imported here may import Mathlib, or the executable will not link). -/
+/- line-protocol driver for C03: `drv_c03 gen|exec|mrun|scope` reads operations on stdin, prints one canonical line per
+   operation.  Core Lean only (nothing imported here may import Mathlib, or the executable will not link). -/
+import ChibiVerif.Driver.CtlCmd
 
-def main (args : List String) : IO UInt32 := do
-  IO.eprintln s!"drv_c03: no sub-commands yet (args {args})"
-  return 2
+def main (args : List String) : IO UInt32 := ChibiVerif.Driver.CtlCmd.main args
